@@ -2,7 +2,9 @@ package main
 
 import (
 	"fmt"
+	"go/token"
 	"go/types"
+	"sort"
 	"strings"
 
 	"golang.org/x/tools/go/ssa"
@@ -23,6 +25,9 @@ const regPkg = "regulator"
 func regSumm(p *Prog, d int) *Summ {
 	s := newSumm(p, d)
 	s.EngineAliases = false
+	// queue accessors are read where they are called
+	qh := queueHelpers(p)
+	s.HelperInline = func(f *ssa.Function) bool { return qh[f] }
 	return s
 }
 
@@ -37,8 +42,117 @@ type regAnchors struct {
 	all        map[*ssa.Function]bool
 }
 
+// queueHelpers: package-private functions without loops that store to the waiting queue and are
+// called from the package (a setter, a pop-the-head accessor). They are analysed where they are
+// called; the roles go to their callers.
+var queueHelpersOf = map[*Prog]map[*ssa.Function]bool{}
+
+func queueHelpers(p *Prog) map[*ssa.Function]bool {
+	if m, ok := queueHelpersOf[p]; ok {
+		return m
+	}
+	m := map[*ssa.Function]bool{}
+	ix := p.Index()
+	for _, fn := range p.Funcs {
+		if fn.Pkg == nil || shortPkg(fn.Pkg.Pkg.Path()) != regPkg || fn.Parent() != nil || fn.Blocks == nil || token.IsExported(fn.Name()) || len(findLoops(fn)) > 0 {
+			continue
+		}
+		stores, leaf := false, true
+		for _, b := range fn.Blocks {
+			for _, in := range b.Instrs {
+				if st, ok := in.(*ssa.Store); ok && accessKey(st.Addr) == "regulator.regulator.waitingQueue" {
+					stores = true
+				}
+				// an accessor does nothing else: no calls except builtins and printing
+				if call, ok := in.(ssa.CallInstruction); ok {
+					cc := call.Common()
+					if _, bi := cc.Value.(*ssa.Builtin); bi {
+						continue
+					}
+					if n := extCalleeName(cc); strings.HasPrefix(n, "fmt.") {
+						continue
+					}
+					leaf = false
+				}
+			}
+		}
+		if !stores || !leaf {
+			continue
+		}
+		called := false
+		for _, cl := range ix.Callers(fn) {
+			if cl.Pkg == fn.Pkg {
+				called = true
+			}
+		}
+		if called {
+			m[fn] = true
+		}
+	}
+	queueHelpersOf[p] = m
+	return m
+}
+
+func (ra *regAnchors) classifyQueueStore(fn *ssa.Function, val ssa.Value, inLoop bool) {
+	switch v := val.(type) {
+	case *ssa.Slice:
+		if inLoop {
+			ra.poppers[fn] = true
+		}
+	case *ssa.Call:
+		if bi, ok := v.Call.Value.(*ssa.Builtin); ok && bi.Name() == "append" {
+			ra.enqueuer = fn
+		} else {
+			// the result of a helper that returns what is left over
+			ra.drainer = fn
+		}
+	case *ssa.Phi:
+		ra.drainer = fn
+	}
+}
+
+// storeThroughHelper books the store of val by accessor h on h's callers: a parameter is read as
+// the argument of the call, and "in a loop" is asked of the call site.
+func (ra *regAnchors) storeThroughHelper(ix *Index, h *ssa.Function, val ssa.Value, depth int) {
+	if depth > 2 {
+		return
+	}
+	for _, cl := range ix.Callers(h) {
+		if cl.Pkg != h.Pkg {
+			continue
+		}
+		for _, site := range ix.CallSites(cl, h) {
+			cc := site.Common()
+			if cc.StaticCallee() != h {
+				continue
+			}
+			v := val
+			if prm, ok := val.(*ssa.Parameter); ok {
+				for i, fp := range h.Params {
+					if fp == prm && i < len(cc.Args) {
+						v = cc.Args[i]
+					}
+				}
+			}
+			if queueHelpers(ix.P)[cl] {
+				ra.storeThroughHelper(ix, cl, v, depth+1)
+				continue
+			}
+			inLoop := false
+			for _, l := range findLoops(cl) {
+				if l.Blocks[site.Block()] {
+					inLoop = true
+				}
+			}
+			ra.classifyQueueStore(cl, v, inLoop)
+		}
+	}
+}
+
 func resolveRegAnchors(p *Prog) *regAnchors {
 	ra := &regAnchors{poppers: map[*ssa.Function]bool{}, all: map[*ssa.Function]bool{}}
+	ix := p.Index()
+	qh := queueHelpers(p)
 	for _, fn := range p.Funcs {
 		if fn.Pkg == nil || shortPkg(fn.Pkg.Pkg.Path()) != regPkg || fn.Parent() != nil {
 			continue
@@ -63,18 +177,12 @@ func resolveRegAnchors(p *Prog) *regAnchors {
 					if accessKey(x.Addr) != "regulator.regulator.waitingQueue" {
 						continue
 					}
-					switch v := x.Val.(type) {
-					case *ssa.Slice:
-						if hasLoop {
-							ra.poppers[fn] = true
-						}
-					case *ssa.Call:
-						if bi, ok := v.Call.Value.(*ssa.Builtin); ok && bi.Name() == "append" {
-							ra.enqueuer = fn
-						}
-					case *ssa.Phi:
-						ra.drainer = fn
+					if qh[fn] {
+						// a small accessor: the store belongs to whoever calls it
+						ra.storeThroughHelper(ix, fn, x.Val, 0)
+						continue
 					}
+					ra.classifyQueueStore(fn, x.Val, hasLoop)
 				}
 			}
 		}
@@ -547,7 +655,25 @@ func runRegLockstep(c *Ctx, rule string) {
 				bad = append(bad, "the table count is decremented without checking that the table exists")
 			}
 		}
-		c.check(len(bad) == 0 && n > 0, rule, fnKey(bt), p.FnPos(bt), "entry deleted and table count decremented together, only for an existing table", "breaking a table miscounts", uniq(bad, 3)...)
+		// a table sheet lives in the table map only: any other regulator field that can hold one
+		// (a remembered "table being filled", a cache) must be written by the function that deletes
+		// the entry, or it goes on naming a table that no longer exists
+		if rt := namedType(p, regPkg, "regulator"); rt != nil {
+			if st, ok := rt.Underlying().(*types.Struct); ok {
+				for i := 0; i < st.NumFields(); i++ {
+					f := st.Field(i)
+					ts := f.Type().String()
+					if !strings.Contains(ts, "regulator.Table") || strings.HasPrefix(ts, "map[string]") {
+						continue
+					}
+					key := "regulator.regulator." + f.Name()
+					if fi := p.Index().Info[bt]; fi == nil || !fi.TWrites[key] {
+						bad = append(bad, "the field "+f.Name()+" ("+ts+") can keep a table's sheet and is not touched when the table is broken")
+					}
+				}
+			}
+		}
+		c.check(len(bad) == 0 && n > 0, rule, fnKey(bt), p.FnPos(bt), "entry deleted and table count decremented together, only for an existing table; no other field keeps a sheet of the broken table", "breaking a table miscounts", uniq(bad, 3)...)
 	}
 	// (d) dispatchPlayer
 	if dp := ra.dispatcher; dp == nil {
@@ -555,6 +681,7 @@ func runRegLockstep(c *Ctx, rule string) {
 	} else {
 		c.touch(fnKey(dp))
 		s := regSumm(p, 0)
+		s.HelperInline = ra.helperFilter(p, dp) // the cut of the list may live in a helper
 		paths, _ := s.Function(dp)
 		pl := "param:" + dp.Params[1].Name()
 		var bad []string
@@ -723,6 +850,35 @@ func runRegQueue(c *Ctx) {
 		c.check(len(bad) == 0 && n > 0, "queue-discipline", fnKey(ra.drainer)+"#remainder-before-open", p.FnPos(ra.drainer), "the remainder is stored back before tables are opened", "players just seated can be popped again for a new table", uniq(bad, 2)...)
 	}
 	ws := ix.Writers("regulator.regulator.waitingQueue")
+	{
+		// an accessor's store is examined in the functions that call it
+		qh := queueHelpers(p)
+		seen := map[*ssa.Function]bool{}
+		var out []*ssa.Function
+		var add func(f *ssa.Function, d int)
+		add = func(f *ssa.Function, d int) {
+			if !qh[f] {
+				if !seen[f] {
+					seen[f] = true
+					out = append(out, f)
+				}
+				return
+			}
+			if d > 2 {
+				return
+			}
+			for _, cl := range ix.Callers(f) {
+				if cl.Pkg == f.Pkg {
+					add(cl, d+1)
+				}
+			}
+		}
+		for _, w := range ws {
+			add(w, 0)
+		}
+		sort.Slice(out, func(i, j int) bool { return fnKey(out[i]) < fnKey(out[j]) })
+		ws = out
+	}
 	kinds := map[string]bool{}
 	defer func() {
 		c.floor("queue-discipline", "kinds of queue writers (append, pop, remainder)", len(kinds), 3)
@@ -784,7 +940,7 @@ func runRegQueue(c *Ctx) {
 // dispatcher, or what a package-private helper returns from such sources (its parameters are read
 // as the arguments of the call).
 func remainderOnly(v ssa.Value, dispatcher *ssa.Function, bind map[*ssa.Parameter]ssa.Value, depth int) bool {
-	if depth > 4 {
+	if depth > 8 {
 		return false
 	}
 	var leaves []ssa.Value
@@ -805,6 +961,26 @@ func remainderOnly(v ssa.Value, dispatcher *ssa.Function, bind map[*ssa.Paramete
 					return false
 				}
 				continue
+			}
+			// the parameter of a queue accessor: what every call site passes
+			if h := x.Parent(); h != nil && dispatcher != nil && queueHelpers(progOf(dispatcher))[h] {
+				ix := progOf(dispatcher).Index()
+				n := 0
+				for _, cl := range ix.Callers(h) {
+					for _, site := range ix.CallSites(cl, h) {
+						for i, fp := range h.Params {
+							if fp == x && i < len(site.Common().Args) {
+								n++
+								if !remainderOnly(site.Common().Args[i], dispatcher, nil, depth+1) {
+									return false
+								}
+							}
+						}
+					}
+				}
+				if n > 0 {
+					continue
+				}
 			}
 			return false
 		case *ssa.Call:
@@ -830,4 +1006,12 @@ func remainderOnly(v ssa.Value, dispatcher *ssa.Function, bind map[*ssa.Paramete
 		}
 	}
 	return true
+}
+
+// progOf finds the loaded program a function belongs to (there is one per process).
+func progOf(fn *ssa.Function) *Prog {
+	for p := range queueHelpersOf {
+		return p
+	}
+	return nil
 }
